@@ -32,15 +32,15 @@ type Violation struct {
 
 // Result is what one worker reports.
 type Result struct {
-	Counters   map[string]int64             `json:"counters"`
-	Distinct   map[string][]uint64          `json:"distinct"`
-	Samples    []interface{}                `json:"samples"`
-	Violations []Violation                  `json:"violations"`
-	Notes      map[string]string            `json:"notes"`
-	Outcomes   map[string]map[string]int64  `json:"outcomes"`
-	Caps       []string                     `json:"caps"`
-	Truncated  bool                         `json:"truncated"`
-	HarnessErr string                       `json:"harness_err"`
+	Counters   map[string]int64            `json:"counters"`
+	Distinct   map[string][]uint64         `json:"distinct"`
+	Samples    []interface{}               `json:"samples"`
+	Violations []Violation                 `json:"violations"`
+	Notes      map[string]string           `json:"notes"`
+	Outcomes   map[string]map[string]int64 `json:"outcomes"`
+	Caps       []string                    `json:"caps"`
+	Truncated  bool                        `json:"truncated"`
+	HarnessErr string                      `json:"harness_err"`
 }
 
 // Ctx is the context a check's worker runs in.
